@@ -307,3 +307,85 @@ func runFormTransferEncoding() (sig, detail string) {
 	}
 	return "", ""
 }
+
+// ---- urlencoded bodies against the Coq model (Model/FormBody.v, judge Exec/C06FormExec.v) ----
+type C06FormObs struct {
+	Err   string `json:"error,omitempty"`
+	Value any    `json:"value"`
+}
+
+func (c *C06Form) gschema() *GSchema {
+	g := &GSchema{HasTypes: true, Types: []string{"object"}, Props: map[string]*GSchema{}, Required: c.Required}
+	for name, t := range c.Props {
+		if strings.HasPrefix(t, "array:") {
+			g.Props[name] = &GSchema{HasTypes: true, Types: []string{"array"}, Items: &GSchema{HasTypes: true, Types: []string{strings.TrimPrefix(t, "array:")}}}
+		} else {
+			g.Props[name] = &GSchema{HasTypes: true, Types: []string{t}}
+		}
+	}
+	if c.NoExtra {
+		g.ApHas = bp(false)
+	}
+	return g
+}
+
+func runFormDecode(c *C06Form) C06FormObs {
+	q := url.Values{}
+	for _, f := range c.Fields {
+		q.Add(f[0], f[1])
+	}
+	var o C06FormObs
+	var v any
+	var err error
+	if pn := catchPanic(func() {
+		v, err = openapi3filter.UrlencodedBodyDecoder(strings.NewReader(q.Encode()), nil, formSchema(c).NewRef(), nil)
+	}); pn != nil {
+		o.Err = "panic: " + fmt.Sprint(pn)
+		return o
+	}
+	if err != nil {
+		o.Err = err.Error()
+		return o
+	}
+	o.Value = v
+	return o
+}
+
+func formCoq(c *C06Form, o *C06FormObs) string {
+	q := url.Values{}
+	for _, f := range c.Fields {
+		q.Add(f[0], f[1])
+	}
+	keys := make([]string, 0, len(q))
+	for k := range q {
+		keys = append(keys, k)
+	}
+	sortStrings(keys)
+	var qs, fs, i64, i32, fl []string
+	texts := map[string]bool{}
+	for _, k := range keys {
+		qs = append(qs, fmt.Sprintf("(%s, %s)", coqStr(k), coqStrList(q[k])))
+		t, declared := c.Props[k]
+		if (declared && strings.HasPrefix(t, "array:")) || len(q[k]) != 1 {
+			fs = append(fs, fmt.Sprintf("(%s, FArr %s)", coqStr(k), coqStrList(q[k])))
+		} else {
+			fs = append(fs, fmt.Sprintf("(%s, FPrim %s)", coqStr(k), coqStr(q[k][0])))
+		}
+		for _, v := range q[k] {
+			texts[v] = true
+		}
+	}
+	for _, s := range sortedSet(texts) {
+		if n, err := strconv.ParseInt(s, 0, 64); err == nil {
+			i64 = append(i64, fmt.Sprintf("(%s, Some %s)", coqStr(s), coqZ(n)))
+		}
+		if n, err := strconv.ParseInt(s, 0, 32); err == nil {
+			i32 = append(i32, fmt.Sprintf("(%s, Some %s)", coqStr(s), coqZ(n)))
+		}
+		if f, err := strconv.ParseFloat(s, 64); err == nil {
+			fl = append(fl, fmt.Sprintf("(%s, Some %s)", coqStr(s), coqFloat(f)))
+		}
+	}
+	return fmt.Sprintf("mkForm %s %s %s %s %s %s %s %s", c.gschema().Coq(), coqList(qs), coqList(fs), coqList(i64), coqList(i32), coqList(fl),
+		coqBool(o.Err != ""), coqPval(o.Value))
+}
